@@ -17,6 +17,7 @@
 package main
 
 import (
+	"encoding/json"
 	"fmt"
 	"math/big"
 	"sort"
@@ -31,6 +32,7 @@ import (
 	authtypes "github.com/cosmos/cosmos-sdk/x/auth/types"
 	banktypes "github.com/cosmos/cosmos-sdk/x/bank/types"
 	"github.com/ethereum/go-ethereum/common"
+	"github.com/ethereum/go-ethereum/common/hexutil"
 	evmtypes "github.com/evmos/ethermint/x/evm/types"
 	feemarkettypes "github.com/evmos/ethermint/x/feemarket/types"
 
@@ -163,8 +165,29 @@ func (w *world) tagOf(ss *seqState, a types.InternalEVMAddress) string {
 	return "?" + a.Hex()
 }
 
-func (w *world) observe(ctx sdk.Context, ss *seqState) obs {
-	// queries go through CallEVM (they bump the module nonce): observe in a throw-away branch
+// ethCall is the EVM keeper's own eth_call query (one execution, nothing committed).
+func (w *world) ethCall(ctx sdk.Context, contract types.InternalEVMAddress, method string, args ...interface{}) *big.Int {
+	data, err := types.ERC20MintableBurnableContract.ABI.Pack(method, args...)
+	must(err)
+	from := types.ModuleEVMAddress
+	targs, err := json.Marshal(evmtypes.TransactionArgs{From: &from, To: &contract.Address, Data: (*hexutil.Bytes)(&data)})
+	must(err)
+	res, err := w.tApp.GetEvmKeeper().EthCall(sdk.WrapSDKContext(ctx), &evmtypes.EthCallRequest{Args: targs, GasCap: 2_000_000})
+	must(err)
+	if res.Failed() {
+		panic("c10: eth_call failed: " + res.VmError)
+	}
+	outs, err := types.ERC20MintableBurnableContract.ABI.Unpack(method, res.Ret)
+	must(err)
+	return outs[0].(*big.Int)
+}
+
+// touched = cells (contract tag, party) that must additionally be read through the keeper's own
+// QueryERC20BalanceOf / QueryERC20TotalSupply (CallEVM: gas estimation + committed call); every cell
+// is read by eth_call. The two must agree. full = read every cell both ways (first observation of a
+// sequence; every 8th operation in the thorough tier).
+func (w *world) observe(ctx sdk.Context, ss *seqState, touched map[string][]int, full bool) obs {
+	// keeper queries go through CallEVM (they bump the module nonce): observe in a throw-away branch
 	ctx, _ = ctx.CacheContext()
 	bk := w.tApp.GetBankKeeper()
 	var o obs
@@ -195,18 +218,34 @@ func (w *world) observe(ctx sdk.Context, ss *seqState) obs {
 		o.bank = append(o.bank, row)
 		o.supply = append(o.supply, bk.GetSupply(ctx, d).Amount.BigInt())
 	}
+	full = full || touched == nil
 	for _, t := range o.tags {
 		ca := ss.addrs[t]
 		row := make([]*big.Int, nParties)
 		for i, a := range w.evmA {
-			b, err := w.k.QueryERC20BalanceOf(ctx, ca, a)
-			must(err)
-			row[i] = b
+			row[i] = w.ethCall(ctx, ca, "balanceOf", a.Address)
 		}
 		o.ebal = append(o.ebal, row)
-		ts, err := w.k.QueryERC20TotalSupply(ctx, ca)
-		must(err)
-		o.total = append(o.total, ts)
+		o.total = append(o.total, w.ethCall(ctx, ca, "totalSupply"))
+		// the keeper's own queries on the touched cells (all cells on the first observation / thorough tier)
+		cells, isTouched := touched[t]
+		if full {
+			cells = []int{0, 1, 2, 3, 4, 5}
+		}
+		for _, i := range cells {
+			b, err := w.k.QueryERC20BalanceOf(ctx, ca, w.evmA[i])
+			must(err)
+			if b.Cmp(row[i]) != 0 {
+				panic(fmt.Sprintf("c10: QueryERC20BalanceOf %v != eth_call %v", b, row[i]))
+			}
+		}
+		if full || isTouched {
+			ts, err := w.k.QueryERC20TotalSupply(ctx, ca)
+			must(err)
+			if ts.Cmp(o.total[len(o.total)-1]) != 0 {
+				panic(fmt.Sprintf("c10: QueryERC20TotalSupply %v != eth_call %v", ts, o.total[len(o.total)-1]))
+			}
+		}
 	}
 	return o
 }
@@ -243,10 +282,15 @@ func (o obs) fields() []string {
 func bi(x int64) *big.Int { return big.NewInt(x) }
 
 // amount pool around a balance: 0, dust, dust±1, multiples of 10^10 ±1, balance, balance±1
-func amount(r *c.Rng, bal *big.Int) *big.Int {
+// (the 10^10 cases only for 18-decimal bep3 ERC20 amounts: big = true)
+func amount(r *c.Rng, bal *big.Int, big10 bool) *big.Int {
 	pick := func(xs ...*big.Int) *big.Int { return new(big.Int).Set(xs[r.Intn(len(xs))]) }
 	var x *big.Int
-	switch r.Intn(12) {
+	k := r.Intn(16)
+	if !big10 && (k == 1 || k == 2 || k == 5) {
+		k = 7 + r.Intn(9)
+	}
+	switch k {
 	case 0:
 		x = bi(0)
 	case 1: // dust
@@ -265,6 +309,9 @@ func amount(r *c.Rng, bal *big.Int) *big.Int {
 	}
 	if x.Sign() < 0 {
 		x = bi(0)
+	}
+	if x.Sign() == 0 && bal.Sign() > 0 && r.Chance(80) { // an accidental zero: take part of the balance instead
+		x = new(big.Int).Add(r.BigBelow(bal), bi(1))
 	}
 	return x
 }
@@ -362,17 +409,28 @@ func (w *world) seq(out *c.Out, seq int, r *c.Rng) {
 	for _, i := range subset(r, len(w.uni)) {
 		ps = append(ps, w.uni[i])
 	}
+	if r.Chance(60) {
+		ps = append([]pair{}, w.uni...)
+	}
 	w.setPairs(ctx, ss, ps)
-	w.setAllowed(ctx, []string{"cosmo", "ibc/atom"}[:r.Range(1, 2)])
+	if r.Chance(70) {
+		w.setAllowed(ctx, []string{"cosmo", "ibc/atom"})
+	} else {
+		w.setAllowed(ctx, []string{"cosmo", "ibc/atom"}[:r.Range(0, 1)])
+	}
 
-	nops := c.Budget(16, 60)
+	nops := c.Budget(40, 80)
 	t0 := time.Now()
-	pre := w.observe(ctx, ss)
+	pre := w.observe(ctx, ss, nil, true)
 	tObs += time.Since(t0)
 	var fo *forcedOp
 	for i := 0; i < nops; i++ {
 		kind := c.Pick(r, []string{"c2e", "c2e", "c2e", "e2c", "e2c", "e2c", "e2c", "cc2e", "cc2e", "cc2e", "e2cc", "e2cc", "e2cc",
-			"xfer", "xfer", "send", "send", "xmint", "pairs", "allow"})
+			"xfer", "xfer", "xfer", "send", "send", "send", "xmint", "xmint", "pairs", "allow",
+			"c2e", "e2c", "cc2e", "e2cc", "e2c", "e2cc"})
+		if kind == "e2cc" && len(pre.reg) == 0 && r.Chance(85) {
+			kind = "cc2e" // nothing to convert back yet
+		}
 		a := int(r.Range(2, 4)) // initiator: a user (nobody can sign for the module account)
 		if r.Chance(5) {
 			a = 1
@@ -388,14 +446,40 @@ func (w *world) seq(out *c.Out, seq int, r *c.Rng) {
 		amt := bi(0) // amount
 		var nlPairs []pair
 		var nlAllow []string
-		// ---- choose the operand and the amount from the current state
+		// ---- choose the operand, then (mostly) an initiator who holds it, then the amount
+		holder := func(row []*big.Int) {
+			if r.Chance(85) {
+				var hs []int
+				for u := 2; u <= 4; u++ {
+					if row[u].Sign() > 0 {
+						hs = append(hs, u)
+					}
+				}
+				if len(hs) > 0 {
+					if a == b { // keep a self conversion a self conversion
+						a = hs[r.Intn(len(hs))]
+						b = a
+					} else {
+						a = hs[r.Intn(len(hs))]
+					}
+				}
+			}
+		}
+		zeroRow := make([]*big.Int, nParties)
+		for j := range zeroRow {
+			zeroRow[j] = bi(0)
+		}
 		switch kind {
 		case "c2e":
 			x = c.Pick(r, denoms)
-			if r.Chance(80) {
+			if r.Chance(85) {
 				x = denoms[r.Intn(2)]
+				if y := denoms[r.Intn(2)]; !held(pre.bank[idx(denoms, x)]) && held(pre.bank[idx(denoms, y)]) {
+					x = y
+				}
 			}
-			amt = amount(r, pre.bank[idx(denoms, x)][a])
+			holder(pre.bank[idx(denoms, x)])
+			amt = amount(r, pre.bank[idx(denoms, x)][a], false)
 			if r.Chance(10) { // aim at the module's locked ERC20 (unlock must fail just above it)
 				for _, p := range w.uni {
 					if p.d == x {
@@ -409,44 +493,53 @@ func (w *world) seq(out *c.Out, seq int, r *c.Rng) {
 			}
 		case "e2c":
 			x = c.Pick(r, pre.tags)
-			if r.Chance(85) {
+			if r.Chance(88) {
 				x = pre.tags[r.Intn(2)]
 			}
-			amt = amount(r, pre.ebal[idx(pre.tags, x)][a])
+			holder(pre.ebal[idx(pre.tags, x)])
+			amt = amount(r, pre.ebal[idx(pre.tags, x)][a], x == "x1")
 		case "cc2e":
 			x = c.Pick(r, denoms)
-			if r.Chance(85) {
+			if r.Chance(88) {
 				x = denoms[2+r.Intn(2)]
 			}
-			amt = amount(r, pre.bank[idx(denoms, x)][a])
+			holder(pre.bank[idx(denoms, x)])
+			amt = amount(r, pre.bank[idx(denoms, x)][a], false)
 		case "e2cc":
 			x = c.Pick(r, denoms)
-			if r.Chance(85) {
-				x = denoms[2+r.Intn(2)]
-			}
-			bal := bi(0)
-			for _, p := range pre.reg {
-				if p.d == x {
-					bal = pre.ebal[idx(pre.tags, p.c)][a]
+			if len(pre.reg) > 0 && r.Chance(88) {
+				x = pre.reg[r.Intn(len(pre.reg))].d
+				if y := pre.reg[r.Intn(len(pre.reg))]; !held(pre.ebal[idx(pre.tags, regOf(pre, x))]) && held(pre.ebal[idx(pre.tags, y.c)]) {
+					x = y.d
 				}
 			}
-			amt = amount(r, bal)
+			row := zeroRow
+			if t := regOf(pre, x); t != "" {
+				row = pre.ebal[idx(pre.tags, t)]
+			}
+			holder(row)
+			amt = amount(r, row[a], false)
 		case "xfer":
 			x = c.Pick(r, pre.tags)
-			amt = amount(r, pre.ebal[idx(pre.tags, x)][a])
+			holder(pre.ebal[idx(pre.tags, x)])
+			amt = amount(r, pre.ebal[idx(pre.tags, x)][a], x == "x1")
 		case "send":
 			x = c.Pick(r, denoms)
-			amt = amount(r, pre.bank[idx(denoms, x)][a])
+			holder(pre.bank[idx(denoms, x)])
+			amt = amount(r, pre.bank[idx(denoms, x)][a], false)
 		case "xmint":
 			x = pre.tags[r.Intn(2)]
 			a = 0
-			amt = amount(r, new(big.Int).Mul(bi(2), F))
+			amt = amount(r, new(big.Int).Mul(bi(2), F), x == "x1")
+			if x == "x0" {
+				amt = bi(r.Range(0, 500))
+			}
 		case "pairs":
 			a, b = 0, 0
 			for _, i := range subset(r, len(w.uni)) {
 				nlPairs = append(nlPairs, w.uni[i])
 			}
-			if r.Chance(60) {
+			if r.Chance(50) {
 				nlPairs = append([]pair{}, w.uni...)
 			}
 			x = pairsStr(nlPairs)
@@ -456,6 +549,9 @@ func (w *world) seq(out *c.Out, seq int, r *c.Rng) {
 				if i >= 2 || r.Chance(15) { // rarely a pair denom is also an allowed cosmos denom
 					nlAllow = append(nlAllow, denoms[i])
 				}
+			}
+			if r.Chance(40) {
+				nlAllow = []string{"cosmo", "ibc/atom"}
 			}
 			x = c.Strs(nlAllow)
 		}
@@ -486,7 +582,7 @@ func (w *world) seq(out *c.Out, seq int, r *c.Rng) {
 				_, err := w.ms.ConvertERC20ToCoin(sdk.WrapSDKContext(cx), &msg)
 				return err
 			}
-			sigExtra = fmt.Sprintf("|dust=%v|sub1=%v", new(big.Int).Mod(amt, F).Sign() != 0, amt.Cmp(F) < 0)
+			sigExtra = fmt.Sprintf("|%s|dust=%v|sub1=%v", x, new(big.Int).Mod(amt, F).Sign() != 0, amt.Cmp(F) < 0)
 		case "cc2e":
 			msg := types.NewMsgConvertCosmosCoinToERC20(w.bankA[a].String(), w.evmA[b].Hex(), sdk.Coin{Denom: x, Amount: sdkmath.NewIntFromBigInt(amt)})
 			run = func(cx sdk.Context) error {
@@ -532,7 +628,7 @@ func (w *world) seq(out *c.Out, seq int, r *c.Rng) {
 		}
 		cls, err := kapp.Exec(ctx, run)
 		t1 := time.Now()
-		post := w.observe(ctx, ss)
+		post := w.observe(ctx, ss, w.touched(pre, kind, a, b, x), c.Tier() == "thorough" && i%8 == 7)
 		tObs += time.Since(t1)
 		ec := ""
 		if err != nil {
@@ -567,7 +663,7 @@ func (w *world) seq(out *c.Out, seq int, r *c.Rng) {
 		} else if rt != nil {
 			out.Note("round-trip-second-half-failed:" + ec)
 		}
-		if rt == nil && cls == kapp.OK && a >= 2 && a <= 4 && b >= 2 && b <= 4 && r.Chance(40) {
+		if rt == nil && cls == kapp.OK && a >= 2 && a <= 4 && b >= 2 && b <= 4 && r.Chance(20) {
 			switch kind {
 			case "e2c":
 				d := ""
@@ -595,6 +691,29 @@ func (w *world) seq(out *c.Out, seq int, r *c.Rng) {
 	tTotal += time.Since(t0)
 }
 
+// touched: the ERC20 cells an operation is expected to touch (plus the module's), by contract tag.
+// A contract deployed by this very operation is not known yet: it is read in full.
+func (w *world) touched(pre obs, kind string, a, b int, x string) map[string][]int {
+	m := map[string][]int{}
+	switch kind {
+	case "c2e":
+		for _, p := range w.uni {
+			if p.d == x {
+				m[p.c] = []int{0, a, b}
+			}
+		}
+	case "e2c", "xfer", "xmint":
+		m[x] = []int{0, a, b}
+	case "cc2e", "e2cc":
+		if t := regOf(pre, x); t != "" {
+			m[t] = []int{0, a, b}
+		} else {
+			m["d"+strconv.Itoa(len(pre.tags)-len(w.ext))] = []int{0, 1, 2, 3, 4, 5}
+		}
+	}
+	return m
+}
+
 type forcedOp struct {
 	kind   string
 	a, b   int
@@ -606,6 +725,16 @@ type forcedOp struct {
 	rtB    int
 	rtX    string
 	rtAmt  *big.Int
+}
+
+// held: some user holds the asset
+func held(row []*big.Int) bool {
+	for u := 2; u <= 4; u++ {
+		if row[u].Sign() > 0 {
+			return true
+		}
+	}
+	return false
 }
 
 func regOf(o obs, d string) string {
@@ -648,12 +777,53 @@ func (w *world) invariants(out *c.Out, ctx sdk.Context, bk evmutilBank, where st
 
 type evmutilBank = types.BankKeeper
 
+// pure: the unexported bep3 amount helpers through the verif hook (no EVM needed): amounts of every
+// size up to 2^255, biased to multiples of 10^10 and their neighbours.
+func pure(out *c.Out, r *c.Rng) {
+	n := c.Budget(6000, 200000)
+	for i := 0; i < n; i++ {
+		var a *big.Int
+		switch r.Intn(6) {
+		case 0:
+			a = r.BigBelow(new(big.Int).Mul(bi(3), F))
+		case 1, 2: // k·10^10 + {-1,0,1}
+			a = new(big.Int).Add(new(big.Int).Mul(r.BigBits(200), F), bi(r.Range(-1, 1)))
+		case 3:
+			a = bi(r.Range(0, 3))
+		default:
+			a = r.BigBits(255)
+		}
+		if a.Sign() < 0 {
+			a = bi(0)
+		}
+		mint, lock, err := evmutilkeeper.VerifBep3ERC20AmountToCoinMintAndERC20LockAmount(new(big.Int).Set(a))
+		res, ms, ls := "ok", "0", "0"
+		if err != nil {
+			res = "err"
+		} else {
+			ms, ls = mint.String(), lock.String()
+		}
+		coin := r.BigBits(200)
+		back := evmutilkeeper.VerifConvertBep3CoinAmountToERC20Amount(new(big.Int).Set(coin))
+		sig := ""
+		if i < 4 || a.Cmp(F) < 0 || new(big.Int).Mod(a, F).Sign() == 0 {
+			sig = fmt.Sprintf("bep3|%s|sub1=%v|exact=%v", res, a.Cmp(F) < 0, new(big.Int).Mod(a, F).Sign() == 0)
+		}
+		out.Case(sig, "c10.bep3", a.String(), "=>", res, ms, ls, coin.String(), back.String())
+	}
+	// the denom set
+	for _, d := range []string{"bnb", "btcb", "busd", "xrpb", "ukava", "erc20/usdc", "cosmo", "ibc/atom", "BNB", "bnb2", ""} {
+		out.Case("isbep3|"+d, "c10.isbep3", d, "=>", c.B(evmutilkeeper.VerifIsBep3Asset(d)))
+	}
+}
+
 func main() {
 	out := c.NewOut(c.OutPath())
 	defer out.Close()
 	r := c.NewRng(c.Seed())
-	n := c.Budget(48, 600)
+	n := c.Budget(120, 1200)
 	kapp.RunSeqs(n, c.Workers(), r, mkWorld, func(w *world, seq int, r *c.Rng) { w.seq(out, seq, r) })
+	pure(out, r.Fork(1<<40))
 	if c.EnvInt("VERIF_DEBUG", 0) > 0 {
 		fmt.Println("time in sequences", tTotal, "of which observation", tObs)
 	}
